@@ -1,3 +1,4 @@
+import TakVerif.Props.C13_ptn
 import TakVerif.Props.C13_tps
 import TakVerif.Props.C13_tei
 /-! # C13 — text entry points are total
